@@ -203,6 +203,23 @@ generated:
 			steps = st
 		}
 		reader := rapid.SampledFrom(wrapKinds).Draw(t, "reader")
+		if rapid.IntRange(0, 9).Draw(t, "zerorun") == 0 {
+			// a long run of (0, nil) reads at one point of the delivery - a
+			// polling reader (ring buffer, serial port with a read timeout)
+			// that comes back empty many times before the next bytes. bufio
+			// gives up after 100 empty reads by itself, so the run is only
+			// offered through readers without such a layer.
+			run := rapid.SampledFrom([]int{5, 50, 99, 100, 101, 150, 1000}).Draw(t, "zerorunlen")
+			at := rapid.IntRange(0, len(steps)).Draw(t, "zerorunat")
+			var st []guard.Step
+			st = append(st, steps[:at]...)
+			for i := 0; i < run; i++ {
+				st = append(st, guard.Step{N: 0})
+			}
+			steps = append(st, steps[at:]...)
+			reader = rapid.SampledFrom([]string{"script", "chunklen"}).Draw(t, "zerorunreader")
+			kind += "/long-zero-run"
+		}
 		c := caseC07{Frame: frame, Steps: steps, Reader: reader, Before: before}
 		sig, msg := checkC07b(c)
 		nt, class := c07Nontrivial(frame, steps)
